@@ -309,15 +309,18 @@ func c04VM(w *fw.W, idx int, r *fw.Rand) {
 		if pool == 1 && r.P(1, 3) {
 			src = "a" + wp(add)
 		}
-		if r.Bool() {
-			points = fw.PickT(r, []int64{6, 10, 20, 100})
-			src += r.Pick([]string{"m", "M"}) + wp(points)
-		}
-		if r.Bool() {
-			th = fw.PickT(r, []int64{1, 5, 8, points})
-			if r.Bool() {
+		// modifiers in any order and number: the last one of each kind decides (k and q are one kind)
+		for nm := r.Intn(4); nm > 0; nm-- {
+			switch r.Intn(3) {
+			case 0:
+				points = fw.PickT(r, []int64{6, 10, 20, 100})
+				src += r.Pick([]string{"m", "M"}) + wp(points)
+			case 1:
+				th = fw.PickT(r, []int64{1, 5, 8, 3})
+				ge = true
 				src += r.Pick([]string{"k", "K"}) + wp(th)
-			} else {
+			default:
+				th = fw.PickT(r, []int64{1, 5, 8, 3})
 				ge = false
 				src += r.Pick([]string{"q", "Q"}) + wp(th)
 			}
